@@ -163,7 +163,7 @@ def _mirror(chk, env, spaces, pmap, stats):
     stream = tuple(beh[-1][1]['stream'])
     cands = pmap.get(stream, [])
     chk.require(bool(cands), f'no real seed for the counter-example stream {stream}')
-    jobs = [(i, beh, si, seed, True) for i, (si, seed) in enumerate(cands[:6 if rule == 'dd_draws' else 2])]
+    jobs = [(i, beh, si, seed, True) for i, (si, seed) in enumerate(cands[:16 if rule == 'dd_draws' else 2])]
     res = search.replay_all(spaces, jobs)
     reproduced = sum(1 for x in res if x['violations'])
     _absorb(chk, res, cfg, stats)
@@ -192,7 +192,7 @@ def run(chk):
     _check_and_cover(chk, 'C15_quick.cfg', env, spaces, pmap, stats, limit=0, cover=False)
     _check_and_cover(chk, 'C15_ooo.cfg', env, spaces, pmap, stats, limit=0, cover=False)
     _mirror(chk, env, spaces, pmap, stats)
-    _simulate(chk, 'C15_quick.cfg', env, spaces, pmap, stats, num=480, depth=16)
+    _simulate(chk, 'C15_quick.cfg', env, spaces, pmap, stats, num=400, depth=16)
     _simulate(chk, 'C15_ooo.cfg', env, spaces, pmap, stats, num=240, depth=12)
     _simulate(chk, 'C15_sim.cfg', env, spaces, pmap, stats, num=200, depth=22)
   else:
